@@ -74,6 +74,7 @@ CONSTANTS W,          \* workers (the largest count when the job is rescaled at 
           MaxLen,     \* behaviour length bound (generation; large for exhaustive runs)
           StopAtDone, \* generation: stop a behaviour at quiescence
           KillDilution, \* generation: a Kill is a candidate step with probability 1/KillDilution
+          PubDilution,  \* generation: a Publish is a candidate step with probability 1/PubDilution (writes stay in flight)
           Dev_AssignUnsorted
 
 Workers == 1..W
@@ -184,7 +185,8 @@ Reset(n, curs, sts) ==
 
 \* the history is only kept when generating behaviours (values that never reach the VIEW stay
 \* un-normalised and TLC cannot spill them to its disk queue)
-Log(r) == hist' = IF StopAtDone THEN Append(hist, r) ELSE hist
+\* every step carries w = the worker count of the generation it runs in (Restart: of the generation it boots)
+Log(r) == hist' = IF StopAtDone THEN Append(hist, r @@ [w |-> nw]) ELSE hist
 
 \* the dispatcher: hand head messages to idle sender goroutines, stop at the first busy one
 RECURSIVE Settle(_, _)
@@ -399,11 +401,15 @@ En == Len(hist) < MaxLen /\ (StopAtDone => ~GenDone)
 \* job / restart actions under the names TLC's coverage report counts them by (top-level disjuncts of Next)
 TickIdle             == En /\ pubs = {} /\ Tick
 TickOverlap          == En /\ pubs # {} /\ Tick                    \* a checkpoint created while a publication is in flight
-PublishNewest(i)     == En /\ \E p \in pubs : p.n = i /\ p.n > completed.n /\ Publish(p)
-PublishSuperseded(i) == En /\ \E p \in pubs : p.n = i /\ p.n < completed.n /\ Publish(p)   \* a write that lands after a newer one
+Slow(i) == StopAtDone => RandomElement(1..PubDilution) = 1   \* (a parameter keeps TLC from evaluating it once)
+PublishNewest(i)     == En /\ Slow(i) /\ \E p \in pubs : p.n = i /\ p.n > completed.n /\ Publish(p)
+PublishSuperseded(i) == En /\ Slow(i) /\ \E p \in pubs : p.n = i /\ p.n < completed.n /\ Publish(p)   \* a write that lands after a newer one
 RestartSame(n)       == En /\ ~StopAtDone /\ n = nw /\ Restart(n)
 RestartRescaled(n)   == En /\ ~StopAtDone /\ n # nw /\ Restart(n)   \* rescale at recovery
 GenRestart           == En /\ StopAtDone /\ Restart(RandomElement(Counts))
+\* generation with diluted publications: a step that changes nothing (and logs nothing) keeps the
+\* simulator from stopping a behaviour in which the only thing left to do is a write it chose not to perform
+GenIdle              == En /\ StopAtDone /\ PubDilution > 1 /\ pubs # {} /\ UNCHANGED vars
 
 \* everything else: runner / operator / ack steps and Kill
 Others ==
@@ -418,7 +424,7 @@ Others ==
 
 Next ==
   \/ Others
-  \/ TickIdle \/ TickOverlap \/ GenRestart
+  \/ TickIdle \/ TickOverlap \/ GenRestart \/ GenIdle
   \/ \E i \in 1..MaxCkpt : PublishNewest(i) \/ PublishSuperseded(i)     \* ids never exceed the number of checkpoints created
   \/ \E n \in Counts : RestartSame(n) \/ RestartRescaled(n)
 
